@@ -27,6 +27,8 @@ int __real_clock_nanosleep(clockid_t, int, const timespec*, timespec*);
 int __real_clock_gettime(clockid_t, timespec*);
 }
 
+extern "C" { volatile unsigned long long vsim_progress = 0; }
+
 namespace vsim {
 
 enum St { RUNNABLE, BLK_MUTEX, BLK_COND, BLK_JOIN, BLK_SLEEP, BLK_EVENT, DONE };
@@ -250,6 +252,7 @@ static int choose(const int* cand, int n) {
 static void reschedule(bool exiting) {
     for (;;) {
         st_.steps++;
+        vsim_progress++;
         if ((long)st_.steps > cfg.maxSteps)
             fatal("budget", dumpThreads());
         while (freezeNext < cfg.freezes.size() && cfg.freezes[freezeNext].atStep <= (long)st_.steps) {
@@ -435,6 +438,9 @@ static int doUnlock(pthread_mutex_t* m) {
 }
 
 static int condWait(pthread_cond_t* c, pthread_mutex_t* m, const timespec* abs) {
+    // A thread may be pre-empted between testing its predicate and entering the wait (still holding the mutex):
+    // a notifier that changes the predicate WITHOUT the mutex can slip in here and its wake-up is lost.
+    yield(S_COND_WAIT);
     Thr& t = th[me];
     t.st = BLK_COND;
     t.obj = c;
@@ -583,6 +589,7 @@ int __wrap_clock_gettime(clockid_t k, timespec* t) {
     if (!active()) return __real_clock_gettime(k, t);
     if (cfg.timeRoleMask & (1u << th[me].role))
         vnow += cfg.clockReadCostNs;
+    st_.clockReads[th[me].role < R_NROLES ? th[me].role : 0]++;
     yield(S_CLOCK);
     t->tv_sec = vnow / 1000000000LL;
     t->tv_nsec = vnow % 1000000000LL;
